@@ -10,7 +10,7 @@
 //! Case descriptor (emitted by MassLedger.tla):
 //!   {"mode":"comp","st":{"mass":q,"spec":q,"ext":q},"ops":[[name,arg,opt,k]..]}
 //!       run against FuelConverter, Generator and ReversibleEnergyStorage
-//!   {"mode":"loco","st":{"units":[{"t":"conv"|"bel","mass","mu","force","base","ball",
+//!   {"mode":"loco","st":{"units":[{"t":"conv"|"bel"|"hyb","mass","mu","force","base","ball",
 //!                                  "comps":[{"mass","spec","ext"}..]}..],
 //!                        "cars":{"types":[[base,freight,count]..],"override":q}},"ops":[..]}
 //!       names: SetMass(arg = mass | -1, opt = None|Extensive|Intensive), SetMu(arg, opt =
@@ -29,6 +29,9 @@ use std::collections::HashMap;
 const K: f64 = 64.0;
 const NONE: i64 = -1;
 const ERR: i64 = -2;
+/// known, but not a multiple of 1/64 (e.g. the specific power an Intensive side effect computes
+/// for a near-equal mass): logged as this sentinel, never rounded onto the grid
+const OFFGRID: i64 = -3;
 
 fn g() -> f64 {
     uc::ACC_GRAV.value
@@ -38,10 +41,11 @@ thread_local! { static EXACT: std::cell::Cell<bool> = const { std::cell::Cell::n
 /// last-ulp noise of `* g / g`)
 fn enc(x: f64) -> i64 {
     let y = x * K;
-    if (y - y.round()).abs() > 1e-9 * y.abs().max(1.0) || y.abs() >= INF as f64 {
+    if !y.is_finite() || y < 0.0 || (y - y.round()).abs() > 1e-9 * y.abs().max(1.0) || y.abs() >= INF as f64 {
         EXACT.with(|e| e.set(false));
+        return OFFGRID;
     }
-    qi(x, K).as_i64().unwrap_or(-3)
+    y.round() as i64
 }
 /// adds the `exact` flag accumulated since the last record and emits
 fn put(tr: &mut Tracer, mut v: Value) {
@@ -99,11 +103,17 @@ fn cidx(ctype: &str) -> usize {
 fn base_loco(t: &str) -> &'static Value {
     static CONV: std::sync::OnceLock<Value> = std::sync::OnceLock::new();
     static BEL: std::sync::OnceLock<Value> = std::sync::OnceLock::new();
+    static HYB: std::sync::OnceLock<Value> = std::sync::OnceLock::new();
     let make = |k: &str| serde_json::to_value(build::loco(&json!({"kind": k})).expect("toy loco")).unwrap();
-    if t == "conv" {
-        CONV.get_or_init(|| make("conv"))
-    } else {
-        BEL.get_or_init(|| make("bel"))
+    match t {
+        "conv" => CONV.get_or_init(|| make("conv")),
+        // altrios' own default hybrid (PowertrainType::HybridLoco); its mass fields are overwritten
+        "hyb" => HYB.get_or_init(|| {
+            let mut l = Locomotive::default_hybrid_electric_loco();
+            l.set_save_interval(None);
+            serde_json::to_value(l).unwrap()
+        }),
+        _ => BEL.get_or_init(|| make("bel")),
     }
 }
 
@@ -196,17 +206,17 @@ fn comp_st(v: &Value, ctype: &str) -> Value {
 // locomotives, consist, train
 
 fn comp_names(t: &str) -> &'static [&'static str] {
-    if t == "conv" {
-        &["fc", "gen"]
-    } else {
-        &["res"]
+    match t {
+        "conv" => &["fc", "gen"],
+        "hyb" => &["fc", "gen", "res"],
+        _ => &["res"],
     }
 }
 fn variant(t: &str) -> &'static str {
-    if t == "conv" {
-        "ConventionalLoco"
-    } else {
-        "BatteryElectricLoco"
+    match t {
+        "conv" => "ConventionalLoco",
+        "hyb" => "HybridLoco",
+        _ => "BatteryElectricLoco",
     }
 }
 
@@ -232,7 +242,13 @@ fn unit_json(u: &Value) -> anyhow::Result<Value> {
 
 fn unit_st(l: &Locomotive) -> Value {
     let v = serde_json::to_value(l).unwrap();
-    let t = if v["loco_type"].get("ConventionalLoco").is_some() { "conv" } else { "bel" };
+    let t = if v["loco_type"].get("ConventionalLoco").is_some() {
+        "conv"
+    } else if v["loco_type"].get("HybridLoco").is_some() {
+        "hyb"
+    } else {
+        "bel"
+    };
     let comps: Vec<Value> = comp_names(t)
         .iter()
         .map(|n| comp_st(&v["loco_type"][variant(t)][*n], n))
@@ -503,7 +519,7 @@ fn gen(seed: u64, n: usize, _tier: &str) -> Vec<Value> {
             let nu = r.range(1, 2);
             let units: Vec<Value> = (0..nu)
                 .map(|_| {
-                    let t = *r.pick(&["conv", "bel"]);
+                    let t = *r.pick(&["conv", "bel", "hyb"]);
                     let mass = *r.pick(&[NONE, q(1, 1), q(2, 1), q(4, 1)]);
                     let mu = *r.pick(&[NONE, q(1, 4), q(1, 2)]);
                     let force = if mass >= 0 && mu >= 0 { mass * mu / 64 } else { *r.pick(&[q(1, 2), q(2, 1)]) };
